@@ -285,7 +285,8 @@ type vfTok struct {
 }
 
 type vfOp struct {
-	kind    byte // 'F' forward, 'C' copy prefix, 'R' remove, 'Q' can resume
+	kind    byte // 'F' forward, 'C' copy prefix, 'R' remove, 'Q' can resume, 'E' SetCausal(Except) on the current pass
+	ex      []int
 	toks    []vfTok
 	a, b, c int // C: src dst len | R: seq begin end | Q: seq pos
 }
@@ -328,6 +329,13 @@ func (o vfOp) String() string {
 		return fmt.Sprintf("C %d %d %d", o.a, o.b, o.c)
 	case 'R':
 		return fmt.Sprintf("R %d %d %d", o.a, o.b, o.c)
+	case 'E':
+		var sb strings.Builder
+		fmt.Fprintf(&sb, "E %d", len(o.ex))
+		for _, i := range o.ex {
+			fmt.Fprintf(&sb, " %d", i)
+		}
+		return sb.String()
 	default:
 		return fmt.Sprintf("Q %d %d", o.a, o.b)
 	}
@@ -399,6 +407,13 @@ func vfParseHistory(line string) (vfConfig, []vfOp, error) {
 				ops = append(ops, vfOp{kind: 'R', a: next(), b: next(), c: next()})
 			case "Q":
 				ops = append(ops, vfOp{kind: 'Q', a: next(), b: next()})
+			case "E":
+				m := next()
+				op := vfOp{kind: 'E', ex: []int{}}
+				for j := 0; j < m; j++ {
+					op.ex = append(op.ex, next())
+				}
+				ops = append(ops, op)
 			default:
 				panic("bad op " + k)
 			}
@@ -599,6 +614,8 @@ type vfRun struct {
 	api     Cache         // what Put/Get/SetLayer are called on (the cache itself or the wrapper)
 	sel     func()        // selects this cache behind a wrapper (SetLayerType)
 	taint   *vfTaint
+	curToks []vfTok // the batch of the last StartForward this cache executed (accepted or not)
+	passOp  int     // op index of the accepted forward whose pass is still current (nothing else since), else -1
 	window  int32
 	cf      vfConfig
 	cache   *Causal
@@ -905,6 +922,10 @@ func (r *vfRun) forward(opi int, op vfOp) (string, bool) {
 // fwdPre: shadow-side bookkeeping before a StartForward (ran = this cache's StartForward is executed)
 func (r *vfRun) fwdPre(op vfOp, ran bool) {
 	sh := r.shadow
+	r.passOp = -1
+	if ran {
+		r.curToks = op.toks
+	}
 	if !sh.unsound {
 		// contract: positions continue the sequence (nothing at or after a batch position remains)
 		hi := map[int]int32{}
@@ -912,11 +933,24 @@ func (r *vfRun) fwdPre(op vfOp, ran bool) {
 			if p, ok := hi[t.seq]; ok && p >= t.pos || t.pos < 0 {
 				sh.unsound = true
 			}
+			prev, inBatch := hi[t.seq]
 			hi[t.seq] = t.pos
+			top := int32(-1)
 			for _, e := range sh.entries {
 				if e.has(t.seq) && e.pos >= t.pos {
 					sh.unsound = true
 				}
+				if e.has(t.seq) && e.pos > top {
+					top = e.pos
+				}
+			}
+			if inBatch {
+				top = prev
+			}
+			// with a sliding window a position gap is off contract too: the eviction threshold of the pass
+			// jumps ahead of what the sequence has actually reached (and is not undone if the pass is rejected)
+			if sh.window != math.MaxInt32 && top >= 0 && t.pos != top+1 {
+				sh.unsound = true
 			}
 		}
 	}
@@ -992,7 +1026,17 @@ func (r *vfRun) fwdOK(opi int, op vfOp, ctx ml.Context) string {
 		sh.store(op.toks)
 	}
 
-	// observe through Get (layer 0): key view, value view, mask
+	r.passOp = opi
+	return "ok" + r.observe(opi, op.toks, ctx, nil, true)
+}
+
+// observe reads what the current pass exposes through Get (layer 0: key view, value view, mask) for
+// the tokens of the current batch; except = batch indices made non-causal by SetCausal; judge = the
+// shadow knows this pass (L2 verdicts allowed)
+func (r *vfRun) observe(opi int, toks []vfTok, ctx ml.Context, except map[int]bool, judge bool) string {
+	c := r.cache
+	n := len(toks)
+	sh := &vfShadow{window: r.shadow.window, entries: r.shadow.entries, flags: r.shadow.flags, unsound: r.shadow.unsound || !judge}
 	r.sel()
 	r.api.SetLayer(0)
 	kv, vv, mk := r.api.Get(ctx)
@@ -1013,11 +1057,24 @@ func (r *vfRun) fwdOK(opi int, op vfOp, ctx ml.Context) string {
 			}
 		}
 	}
+	// the mask is built once per pass (or SetCausal) and shared by all layers
+	r.sel()
+	r.api.SetLayer(vfLayers - 1)
+	if _, _, mk2 := r.api.Get(ctx); !sh.unsound {
+		m2 := mk2.(*vfTensor).Floats()
+		same := len(m2) == len(mf)
+		for k := 0; same && k < len(mf); k++ {
+			same = m2[k] == mf[k] || (math.IsInf(float64(m2[k]), -1) && math.IsInf(float64(mf[k]), -1))
+		}
+		if !same {
+			r.l2("mask-differs-across-layers", fmt.Sprintf("op %d", opi))
+		}
+	}
+	r.api.SetLayer(0)
 	var sb strings.Builder
-	sb.WriteString("ok")
 	diagDone := false
 	var diag vfDiag
-	for i, t := range op.toks {
+	for i, t := range toks {
 		var ks []vfKey
 		var got []vfKey // black box: identities only
 		for j := 0; j < length; j++ {
@@ -1052,7 +1109,8 @@ func (r *vfRun) fwdOK(opi int, op vfOp, ctx ml.Context) string {
 		// L2: the exposed identities are exactly the stored history of (seq, <= pos, within window)
 		var want, wantEvicted []vfKey
 		for _, e := range sh.entries {
-			if !e.has(t.seq) || e.pos > t.pos {
+			// an excepted batch index is not restricted to positions <= its own
+			if !e.has(t.seq) || (e.pos > t.pos && !except[i]) {
 				continue
 			}
 			if sh.window != math.MaxInt32 && int64(e.pos) < int64(t.pos)-int64(sh.window) {
@@ -1115,8 +1173,36 @@ func (r *vfRun) step(opi int, op vfOp) {
 		res := c.CanResume(op.a, int32(op.b))
 		r.acctQ(opi, op, res)
 		x = fmt.Sprintf("Q:%v", res)
+	case 'E':
+		ctx := r.backend.NewContext()
+		c.SetCausal(ctx, CausalOptions{Except: op.ex})
+		if r.passOp >= 0 {
+			x = "E" + r.observeE(opi, op, ctx)
+			fwdOK = true
+		} else {
+			x = "E:stale" // not in an accepted pass: the (cached) mask belongs to an older batch; not observed
+		}
+		ctx.Close()
+	}
+	if op.kind != 'F' && op.kind != 'E' {
+		r.passOp = -1
 	}
 	r.finish(opi, op, x, fwdOK)
+}
+
+// observeE: exposures of the current batch after SetCausal; judged only while the accepted pass is current
+func (r *vfRun) observeE(opi int, op vfOp, ctx ml.Context) string {
+	ex := map[int]bool{}
+	for _, i := range op.ex {
+		ex[i] = true
+	}
+	if r.out != nil {
+		r.out.Count("setcausal_ops")
+		if r.passOp >= 0 {
+			r.out.Count("setcausal_judged")
+		}
+	}
+	return r.observe(opi, r.curToks, ctx, ex, r.passOp >= 0)
 }
 
 func (r *vfRun) finish(opi int, op vfOp, x string, fwdOK bool) {
@@ -1230,7 +1316,7 @@ func vfNewWRun(order int, cf vfConfig, out *zzverif.Out, line string, silent boo
 		cfi.window = c.windowSize
 		t := &vfTaint{tainted: map[int]bool{}}
 		backend.taints = append(backend.taints, t)
-		wr.views = append(wr.views, &vfRun{tag: "kw-x", api: w, sel: func() { w.SetLayerType(idx) }, taint: t, cf: cfi, cache: c,
+		wr.views = append(wr.views, &vfRun{passOp: -1, tag: "kw-x", api: w, sel: func() { w.SetLayerType(idx) }, taint: t, cf: cfi, cache: c,
 			backend: backend, line: line, out: out, seenL2: map[string]bool{}, lastQ: map[int][3]int{},
 			shadow: &vfShadow{window: c.windowSize, flags: map[int]*vfSeqFlags{}, unsound: silent}})
 	}
@@ -1287,6 +1373,23 @@ func (wr *vfWRun) step(opi int, op vfOp) {
 		for _, v := range wr.views {
 			v.acctRemove(opi, op, err)
 		}
+	case 'E':
+		ctx := wr.views[0].backend.NewContext()
+		// as gemma3 does it: per layer type, on the underlying cache
+		for i := range wr.views {
+			wr.w.SetLayerType(i)
+			wr.w.UnderlyingCache().(*Causal).SetCausal(ctx, CausalOptions{Except: op.ex})
+		}
+		if wr.views[0].passOp >= 0 {
+			for i, v := range wr.views {
+				details[i] = v.observeE(opi, op, ctx)
+			}
+			x = "E"
+			fwdOK = true
+		} else {
+			x = "E:stale"
+		}
+		ctx.Close()
 	case 'Q':
 		res := wr.w.CanResume(op.a, int32(op.b))
 		if !wr.views[0].shadow.unsound {
@@ -1305,6 +1408,9 @@ func (wr *vfWRun) step(opi int, op vfOp) {
 	}
 	var xs, ls []string
 	for i, v := range wr.views {
+		if op.kind != 'F' && op.kind != 'E' {
+			v.passOp = -1
+		}
 		v.finish(opi, op, details[i], fwdOK)
 		xs = append(xs, v.obsX[len(v.obsX)-1])
 		ls = append(ls, v.obsL[len(v.obsL)-1])
@@ -1381,6 +1487,7 @@ type vfGen struct {
 	length map[int]int32 // runner-style bookkeeping: number of inputs recorded per sequence
 	nextID int
 	ops    []vfOp
+	hadOK  bool
 	run    func(opi int, op vfOp) string // executes the op on the generator's own real cache, returns its observation
 	dead   bool
 }
@@ -1439,7 +1546,7 @@ func vfNewRun(cf vfConfig, out *zzverif.Out, line string, silent bool) *vfRun {
 	cache.Init(backend, ml.DTypeF16, cf.maxSeq, cf.capacity, cf.maxBatch)
 	t := &vfTaint{tainted: map[int]bool{}}
 	backend.taints = append(backend.taints, t)
-	return &vfRun{tag: "kv-x", api: cache, sel: func() {}, taint: t, cf: cf, cache: cache, backend: backend, line: line, out: out,
+	return &vfRun{passOp: -1, tag: "kv-x", api: cache, sel: func() {}, taint: t, cf: cf, cache: cache, backend: backend, line: line, out: out,
 		seenL2: map[string]bool{}, lastQ: map[int][3]int{},
 		shadow: &vfShadow{window: cf.window, flags: map[int]*vfSeqFlags{}, unsound: silent}}
 }
@@ -1456,6 +1563,22 @@ func (g *vfGen) do(op vfOp) (res string) {
 		}
 	}()
 	return g.run(len(g.ops)-1, op)
+}
+
+func (g *vfGen) setCausal(n int) {
+	lo := g.r.Intn(n)
+	hi := g.r.Range(lo, n-1)
+	ex := []int{}
+	for i := lo; i <= hi; i++ {
+		ex = append(ex, i)
+	}
+	switch g.r.Intn(8) {
+	case 0:
+		ex = []int{}
+	case 1:
+		ex = append(ex, n+g.r.Intn(3)) // index beyond the batch
+	}
+	g.do(vfOp{kind: 'E', ex: ex})
 }
 
 func (g *vfGen) clear(s int) {
@@ -1492,6 +1615,14 @@ func (g *vfGen) fwd(wild bool) {
 	if strings.HasPrefix(res, "F:ok") {
 		for s, k := range local {
 			g.length[s] += k
+		}
+		g.hadOK = true
+		// like gemma3's image tokens: a run of batch indices attends non-causally in this pass
+		if g.r.Chance(1, 4) {
+			g.setCausal(n)
+			if g.r.Chance(1, 4) {
+				g.setCausal(n) // changed (or identical: no rebuild) options within the same pass
+			}
 		}
 	} else if g.r.Chance(2, 3) {
 		// cache full: free a sequence, as a server dropping a slot would
@@ -1573,7 +1704,9 @@ func (g *vfGen) step(wild bool) {
 	case x < 19:
 		g.do(vfOp{kind: 'Q', a: s, b: r.Range(0, int(L)+1)})
 	default:
-		if wild {
+		if wild && g.hadOK && r.Chance(1, 2) {
+			g.setCausal(r.Range(1, 4)) // stray SetCausal outside an accepted pass (state only, not observed)
+		} else if wild {
 			g.do(vfOp{kind: 'R', a: s, b: r.Range(-1, 6), c: zzverif.Pick(r, []int{-1, 0, 1, 3, 5, 9, math.MaxInt32})})
 		} else {
 			g.fwd(false)
